@@ -318,6 +318,13 @@ func (c *Controller) analysis(session *Session) (*msg.NatHoleResp, *msg.NatHoleR
 	if err != nil {
 		return nil, nil, fmt.Errorf("classify visitor nat feature error: %v", err)
 	}
+	// assisted addresses are forwarded to the other side as they are: refuse what is not an address
+	if err := ValidateAddrs(cm.AssistedAddrs); err != nil {
+		return nil, nil, fmt.Errorf("client assisted addresses error: %v", err)
+	}
+	if err := ValidateAddrs(vm.AssistedAddrs); err != nil {
+		return nil, nil, fmt.Errorf("visitor assisted addresses error: %v", err)
+	}
 	session.cNatFeature = cNatFeature
 	session.vNatFeature = vNatFeature
 	session.genAnalysisKey()
